@@ -132,7 +132,7 @@ def run_random(job):
 
     async def script(rig):
         d = Driver(rig)
-        allcmds = ("readCounters", "nop", "getNodeId", "getNodeId", "sendUnicast", "readAndClearCounters")
+        allcmds = ("readCounters", "nop", "getNodeId", "getNodeId", "sendUnicast", "readAndClearCounters", "sendMulticast", "sendBroadcast")
         while d.nc < ncmds:
             outstanding = d.nc - len(d.done)
             r = rng.random()
@@ -186,11 +186,22 @@ def run(ctx: Ctx):
     jobs, metas = [], []
     R = 2 if ctx.quick else 3
     k = 0
+    # every member of each priority class stands for its class in rotation
+    MEMBERS = {"readCounters": ("readCounters", "nop", "readAndClearCounters"), "getNodeId": ("getNodeId",),
+               "sendUnicast": ("sendUnicast", "sendMulticast", "sendBroadcast")}
     for calls in itertools.product(CLASS_CMDS, repeat=3):
         for reacts in itertools.product(REACTIONS, repeat=R):
             k += 1
             extra = (0, CLASS_CMDS[k % 3]) if k % 4 == 0 else None
-            jobs.append(("e", (VERSIONS[k % len(VERSIONS)], list(calls), list(reacts), extra)))
+            real = [MEMBERS[c][(k + i) % len(MEMBERS[c])] for i, c in enumerate(calls)]
+            jobs.append(("e", (VERSIONS[k % len(VERSIONS)], real, list(reacts), extra)))
+    # the order in which queued calls start, for every pair of members of different classes and of the same class
+    allm = [m for ms in MEMBERS.values() for m in ms]
+    for a in allm:
+        for b in allm:
+            for third in ("getNodeId", "sendBroadcast", "nop"):
+                k += 1
+                jobs.append(("e", (VERSIONS[k % len(VERSIONS)], [a, b, third], ["reply", "reply", "reply", "reply"], None)))
     if ctx.quick:
         for calls in (("sendUnicast", "getNodeId", "readCounters"), ("getNodeId", "sendUnicast", "readCounters")):
             for reacts in itertools.product(REACTIONS, repeat=3):
